@@ -392,7 +392,7 @@ def norm(v, t):
         except Exception:  # noqa: BLE001
             pass
     if t == "Boolean":
-        return bool(v) if isinstance(v, (bool, int)) else v
+        return bool(v) if isinstance(v, bool) or (isinstance(v, int) and v in (0, 1)) else v
     if isinstance(v, bool):
         return v
     if t == "Integer":
@@ -435,7 +435,14 @@ def from_csv(cell, t):
         except ValueError:
             return text
     if t == "Boolean":
-        return {"true": True, "false": False}.get(text.lower(), text)
+        if text.lower() in ("true", "false"):
+            return text.lower() == "true"
+        try:
+            # a Boolean-typed column that holds numbers in memory (flow_to_stock over a Boolean measure gives 1.0, 2.0, ...)
+            # is written as numbers: compared as numbers, the typing anomaly itself is C10's subject
+            return float(text)
+        except ValueError:
+            return text
     if t is None:
         return text
     return text
